@@ -317,15 +317,25 @@ def gen_backend(rng, tier):
     else:
         pulses = [one_pulse(dur)]
     r = rng.random()
-    if r < 0.12:
+    if r < 0.2:
         dflt = "Full"
     else:
         dflt = [rng.choice([1.0, 1.0, 1.0, 0.5, rng.randint(0, T) / T])]
+    # emulation grid: sub-sampled in a part of the cases (needs >= 4 points)
+    rate = 1.0
+    if rng.random() < (0.6 if dflt == "Full" else 0.15):
+        rate = rng.choice([r_ for r_ in (0.5, 0.2, 0.1) if int(T * r_) >= 4] or [1.0])
     obs = []
     types = rng.sample(OBS_TYPES, rng.choice([2, 3, 4, 5]))
     for i, typ in enumerate(types):
         own = None
-        if rng.random() < 0.45 and dflt != "Full":
+        if dflt == "Full":
+            # own times with "Full": on the grid, between grid points, anywhere
+            if rng.random() < 0.5:
+                own = asc_unique([rng.choice([rng.randint(0, T) / T, (rng.randint(0, T - 1) + 0.5) / T,
+                                              round(rng.random(), 4), 0.3325, 0.671])
+                                  for _ in range(rng.choice([1, 2]))])
+        elif rng.random() < 0.45:
             own = asc_unique([rng.choice([0.0, 0.25, 0.5, 0.75, 1.0, rng.randint(0, T) / T])
                               for _ in range(rng.choice([1, 2]))])
         obs.append(dict(type=typ, own=own))
@@ -368,7 +378,7 @@ def gen_backend(rng, tier):
     return dict(
         kind="backend", level=level, n_atoms=n_atoms, spacing=rng.choice([5.0, 6.0, 8.0]), pulses=pulses,
         raman=dict(amp=rng.choice([1.0, 2.0]), det=rng.choice([0.0, 1.0])) if level == "all" else None,
-        dflt=dflt, obs=obs, noise=noise, init=init, shots=rng.choice([300, 1000]),
+        dflt=dflt, rate=rate, obs=obs, noise=noise, init=init, shots=rng.choice([300, 1000]),
         seed=rng.randrange(2 ** 31),
     )
 
